@@ -3,7 +3,8 @@
 
    PARTIAL: the theorems cover the language L0 of Vm/Model.v (literals, names, list/tuple/dict/set displays,
    not / is None / is not None / isinstance, and / or / conditional expressions, calls of module-level
-   functions; assignment, if/elif/else, def, pass, return) and its extension L1 of Vm/ClassModel.v (module-level
+   functions, subscripts e[i] of list/tuple values by int/bool values incl. negative indices, an index out of
+   range being a run that does not complete; assignment, if/elif/else, def, pass, return) and its extension L1 of Vm/ClassModel.v (module-level
    classes with single/multiple inheritance, class attributes, __init__ and methods in A-normal form, instance
    creation, attribute reads and stores on self and on module-level instances, method calls, cooperative
    super()), programs of any size and nesting.  Objects stored in containers/attributes or passed as arguments,
@@ -72,6 +73,68 @@ Print Assumptions ty_of_sound.
 Theorem optimize_widens : forall (n : nat) (t : ty) (v : value), admits t v -> admits (optimize n t) v.
 Proof. exact optimize_widens_lemma. Qed.
 Print Assumptions optimize_widens.
+
+(* Subscripts (ESub, part of L0: infer_sound / infer_upper_sound / call_sound above quantify over programs that
+   contain them).  The abstract subscript of abstract.List.getitem_slot / TupleClass.getitem_slot, in both modes
+   and whatever the bindings [idxs] of the index variable are, returns a binding that describes the element
+   CPython selects, whenever the concrete subscript completes. *)
+Theorem subscript_sound : forall (lz : bool) (idxs : list aval) (a ai : aval) (v vi r : value),
+  gamma a v -> gamma ai vi -> csub v vi = Some r -> exists b, In b (asub lz idxs a ai) /\ gamma b r.
+Proof. exact asub_sound. Qed.
+Print Assumptions subscript_sound.
+
+(* the concrete side is Python's rule and never answers from a default: a completed subscript selected an existing
+   element, at position z for 0 <= z < len and z + len for -len <= z < 0 *)
+Theorem subscript_in_range : forall (v i r : value), csub v i = Some r ->
+  exists xs z k, seq_items v = Some xs /\ idx_val i = Some z /\ norm_idx z (length xs) = Some k /\
+                 k < length xs /\ nth_error xs k = Some r.
+Proof. exact csub_in_range. Qed.
+Print Assumptions subscript_in_range.
+
+Theorem index_normalisation : forall (z : Z) (n k : nat),
+  norm_idx z n = Some k <->
+  ((0 <= z < Z.of_nat n)%Z /\ Z.of_nat k = z) \/ ((- Z.of_nat n <= z < 0)%Z /\ Z.of_nat k = (z + Z.of_nat n)%Z).
+Proof. exact norm_idx_spec. Qed.
+Print Assumptions index_normalisation.
+
+(* Non-vacuity for subscripts.
+     n0 = 100
+     n10 = 0 if n0 else 1
+     n8 = (1, 's1', None)
+     n9 = [2.5, [n0]]
+     n1 = n8[-1]          # None
+     n2 = n9[n10]         # list, index variable with two constant bindings: both elements
+     n3 = n8[n10]         # tuple, index variable with two bindings: pytype gives up (lazy: Any)
+     n4 = n9[True][0]     # bool index, nested
+     def f0(): return n9[n10]      # the global index loses its constant inside the function: all elements
+     n5 = f0() *)
+Definition demo_sub : prog :=
+  [ TStmt (SAssign 0 (EInt 100));
+    TStmt (SAssign 10 (EIf (EName 0) (EInt 0) (EInt 1)));
+    TStmt (SAssign 8 (ETuple [EInt 1; EStr 1; ENone]));
+    TStmt (SAssign 9 (EList [EFloat 5; EList [EName 0]]));
+    TStmt (SAssign 1 (ESub (EName 8) (EInt (-1))));
+    TStmt (SAssign 2 (ESub (EName 9) (EName 10)));
+    TStmt (SAssign 3 (ESub (EName 8) (EName 10)));
+    TStmt (SAssign 4 (ESub (ESub (EName 9) (EBool true)) (EInt 0)));
+    TDef 0 [] [SReturn (ESub (EName 9) (EName 10))];
+    TStmt (SAssign 5 (ECall 0 [])) ].
+
+Example demo_sub_runs :
+  option_map (fun g => map (slook g) [1; 2; 3; 4; 5]) (ceval 3 demo_sub)
+  = Some [Some VNone; Some (VFloat 5); Some (VInt 1); Some (VInt 100); Some (VFloat 5)].
+Proof. vm_compute. reflexivity. Qed.
+
+Example demo_sub_infer :
+  map (infer demo_sub) [1; 2; 3; 4; 5]
+    = [TNone; TUnion [TFloat; TList TInt]; TUnion [TInt; TStr]; TInt; TUnion [TFloat; TList TInt]] /\
+  map (infer_upper demo_sub) [1; 2; 3; 4; 5]
+    = [TNone; TUnion [TFloat; TList TInt]; TAny; TInt; TUnion [TFloat; TList TInt]].
+Proof. vm_compute. split; reflexivity. Qed.
+
+(* an index out of range is a run that does not complete: excluded by the premise of the theorems *)
+Example demo_sub_index_error : ceval 3 [TStmt (SAssign 0 (ESub (ETuple [EInt 1]) (EInt 1)))] = None.
+Proof. vm_compute. reflexivity. Qed.
 
 (* ---------------------------------------------------------------------------------------------------- *)
 (* Non-vacuity.
